@@ -37,10 +37,11 @@ def obligations(tier):
     obls = [CH("pretty_order_kernel", H, "pretty_order_kernel", t, functions=F[3:4], stubs=[FMT],
                bounds="4 top-level keys + custom key, nested dict repeating keys with symbolic values 0..2 (possibly equal)"),
             CH("special_shapes", H, "special_shapes", t, mode="E1s", functions=F, stubs=[JSONT],
-               bounds="10 shapes (bundles 2.0/2.1, observed-data container, markings, toplevel extension, 5 time zones, nested key repeats, language content, nested extensions) x 32 option vectors")]
+               bounds="14 shapes (bundles 2.0/2.1, bundles with members of the other version / with custom members, observed-data container, markings, toplevel extension, "
+                      "5 time zones, nested key repeats, language content, nested extensions, values reused across spec versions) x 32 option vectors")]
     for p in range(8):
         obls.append(CH("roundtrip_every_class_p%d" % p, H, "roundtrip_classes", t * 2, mode="E1s", functions=F, stubs=[JSONT], env={"VERIF_PART": str(p)},
-                       bounds="classes with index %% 8 == %d of 59 x 6 value-pool rotations x with/without custom properties x 32 option vectors" % p))
+                       bounds="classes with index %% 8 == %d of 59 x 6 value-pool rotations x {parsed, parsed with custom properties, constructed from naive/UTC/offset datetimes with sub-millisecond digits} x 32 option vectors" % p))
     obls += [o for o in C02.obligations(tier) if o.name.startswith("constructor_engine")]
     obls += [o for o in C15.obligations(tier) if o.name in ("parse_format_fixed_point", "format_is_canonical_truncated")]
     return obls
